@@ -609,7 +609,8 @@ def action_kind(node):
         local_defs = None
     kinds = set()
     for r in action_returns(a):
-        kinds.add(classify_expr(r, local_defs))
+        for k in classify_expr(r, local_defs).split('|'):
+            kinds.add(k)
     return kinds
 
 
